@@ -11,6 +11,7 @@ import random
 PATHS = [("a",), ("a", "b"), ("a", "b", "c"), ("a", "d"), ("e",)]
 # the random scripts use a slightly larger universe
 RPATHS = [["a"], ["a", "b"], ["a", "b", "c"], ["a", "e"], ["d"], ["d", "e"], ["d", "e", "c"], ["f"], ["ab"], ["ab", "c"]]
+FLAT = [["f"], ["a", "e"], ["d", "e", "c"], ["ab"], ["a", "b", "c"]]   # no name is a prefix of another
 STORES_QUICK = ["leveldb2"]
 STORES_THOROUGH = ["leveldb2", "leveldb", "leveldb3"]
 NOCONST = {"Paths": set(), "Chunks": set(), "Attrs": set(), "MaxLinks": 0, "MaxOps": 0, "Mix": set(), "Dev": False}
@@ -75,6 +76,9 @@ def random_scripts(rng, n, length, weights, max_chunk=60):
                     nxt[0] += 1
             return ids
 
+        lastn = {}   # name -> (chunk ids, attr) this script last sent through that very name
+        lastv = {}   # alias group -> (chunk ids, attr) this script last sent through any of its names
+
         def content(p):
             keep = []
             old = lastw.get(grp(p), [])
@@ -83,6 +87,24 @@ def random_scripts(rng, n, length, weights, max_chunk=60):
             ids = sorted(set(keep + fresh(rng.choice([0, 1, 1, 2]))))
             lastw[grp(p)] = ids
             return ids
+
+        def sent(p, ids, attr):
+            lastn[tuple(p)] = (list(ids), attr)
+            lastv[grp(p)] = (list(ids), attr)
+            lastw[grp(p)] = list(ids)
+
+        def value(p):
+            """what a write through p sends: a new value, the group's chunks with another attribute
+            (chmod/touch), or a REPEAT of what was last sent through this very name (change - revert)"""
+            r = rng.random()
+            if r < 0.3 and tuple(p) in lastn:
+                ids, attr = lastn[tuple(p)]
+            elif r < 0.5 and grp(p) in lastv:
+                ids, attr = lastv[grp(p)][0], rng.randint(1, 4)
+            else:
+                ids, attr = content(p), rng.randint(1, 4)
+            sent(p, ids, attr)
+            return list(ids), attr
 
         def pick():
             if made and rng.random() < 0.7:
@@ -96,23 +118,25 @@ def random_scripts(rng, n, length, weights, max_chunk=60):
                 kind = "d" if rng.random() < 0.2 else "f"
                 if kind == "f" and rng.random() < 0.5:
                     group[tuple(p)] = tuple(p) + ("#%d" % len(ops),)   # a fresh entry: forget what was there
-                ops.append({"ev": "create", "p": p, "kind": kind, "chunks": content(p) if kind == "f" else [],
-                            "attr": rng.randint(1, 4) if kind == "f" else 0, "oexcl": rng.random() < 0.15})
+                ids, attr = value(p) if kind == "f" else ([], 0)
+                ops.append({"ev": "create", "p": p, "kind": kind, "chunks": ids, "attr": attr, "oexcl": rng.random() < 0.15})
                 made.append(p)
             elif k == "update":
                 p = pick()
                 kind = "d" if rng.random() < 0.15 else "f"
                 if kind == "f" and rng.random() < 0.5:
                     group[tuple(p)] = tuple(p) + ("#%d" % len(ops),)
-                ops.append({"ev": "update", "p": p, "kind": kind, "chunks": content(p) if kind == "f" else [],
-                            "attr": rng.randint(1, 4) if kind == "f" else 0})
+                ids, attr = value(p) if kind == "f" else ([], 0)
+                ops.append({"ev": "update", "p": p, "kind": kind, "chunks": ids, "attr": attr})
             elif k == "write":
                 p = pick()
-                ops.append({"ev": "write", "p": p, "chunks": content(p), "attr": rng.randint(1, 4),
-                            "via": rng.choice(["create", "update"])})
+                ids, attr = value(p)
+                ops.append({"ev": "write", "p": p, "chunks": ids, "attr": attr, "via": rng.choice(["create", "update"])})
             elif k == "link":
                 o, nn = pick(), list(rng.choice(RPATHS))
                 group[tuple(nn)] = grp(o)
+                if grp(o) in lastv:   # link() sends the current value through both names
+                    lastn[tuple(o)] = lastn[tuple(nn)] = lastv[grp(o)]
                 ops.append({"ev": "link", "o": o, "n": nn})
                 made.append(nn)
             elif k == "delete":
@@ -128,6 +152,35 @@ def random_scripts(rng, n, length, weights, max_chunk=60):
             elif k == "list":
                 p = pick()
                 ops.append({"ev": "list", "p": p[:-1] if rng.random() < 0.4 else p})
+        out.append(ops)
+    return out
+
+
+def revert_scripts(rng, n, length=7):
+    """G4b: change-then-revert inputs.  One file, one or two further names linked to it, then writes
+    through randomly chosen names whose values come from a pool of two or three (chunks, attribute)
+    values - so a value sent earlier through one name is often sent again, through the same or another
+    name, after a different value went through a third (chmod back and forth, restore old content)."""
+    out = []
+    for _ in range(n):
+        names = rng.sample(FLAT, rng.choice([2, 2, 3]))
+        base = [1] if rng.random() < 0.7 else []
+        pool = [(base, 1), (base, 2)]
+        if rng.random() < 0.5:
+            pool.append((sorted(base + [2]), rng.choice([1, 2, 3])))
+        ops = [{"ev": "create", "p": list(names[0]), "kind": "f", "chunks": list(pool[0][0]), "attr": pool[0][1], "oexcl": False}]
+        for i in range(1, len(names)):
+            ops.append({"ev": "link", "o": list(rng.choice(names[:i])), "n": list(names[i])})
+        for _ in range(length):
+            r = rng.random()
+            if r < 0.8:
+                ids, attr = rng.choice(pool)
+                ops.append({"ev": "write", "p": list(rng.choice(names)), "chunks": list(ids), "attr": attr,
+                            "via": rng.choice(["create", "update"])})
+            elif r < 0.9:
+                ops.append({"ev": "lookup", "p": list(rng.choice(names))})
+            else:
+                ops.append({"ev": "delete", "p": list(rng.choice(names)), "rec": False, "data": False, "ign": False})
         out.append(ops)
     return out
 
